@@ -249,6 +249,18 @@ def gen_packets(tier, seed, big):
                                   "willTopic": ("w/" + extra) if will else None, "willMessage": ("bye " + extra) if will else None,
                                   "willQoS": wq, "willRetain": wr, "username": ("u" + extra) if user else None,
                                   "password": ("p" + extra) if pw else None}
+    # a zero-length client id (legal in 3.1.1 with a clean session) with everything else present, each twice in a row,
+    # and empty strings in the other fields
+    for will, user, pw in ((False, False, False), (True, False, False), (False, True, False), (False, True, True), (True, True, True)):
+        for rep in (0, 1):
+            yield "CONNECT", {"clientId": "", "keepalive": 30, "cleanStart": True, "version": LEVELS[4],
+                              "willTopic": "w" if will else None, "willMessage": ("" if rep else "m") if will else None,
+                              "willQoS": 1, "willRetain": False, "username": ("" if rep and not pw else "alice") if user else None,
+                              "password": ("secret" if not rep else "") if pw else None}
+    # empty strings at the front, in the middle and at the end of topic lists
+    for lst in ([""], ["foo", ""], ["", "foo"], ["foo", "", ""], ["foo", "", "bar"], ["", ""]):
+        yield "UNSUBSCRIBE", {"msgId": 11, "topics": list(lst)}
+        yield "SUBSCRIBE", {"msgId": 12, "topics": [(t, k % 3) for k, t in enumerate(lst)]}
     for ka in kas:
         yield "CONNECT", {"clientId": "k", "keepalive": ka, "cleanStart": True, "version": LEVELS[4], "willTopic": None,
                           "willMessage": None, "willQoS": 0, "willRetain": False, "username": None, "password": None}
